@@ -128,7 +128,13 @@ impl<const N: usize, T: Send + Sync> AtomicIter<T> for ConIterOfArray<N, T> {
     }
 
     fn early_exit(&self) {
-        self.counter().store(N)
+        // positions before the previous value of the counter are reserved and will be taken by the pulls that reserved them;
+        // the remaining positions can never be reserved any more: they are taken and dropped here
+        let previous = self.counter().swap(N);
+        if previous < N {
+            // SAFETY: no pull has reserved or can reserve positions previous..N
+            drop(unsafe { self.take_slice(previous, N - previous) });
+        }
     }
 }
 
